@@ -7,4 +7,5 @@ VC_REGISTER_ELEM(E8_8, E8_8)
 using E9_1 = E<9,1>;
 VC_REGISTER_ELEM(E9_1, E9_1)
 VC_REGISTER_ELEM_NP(E8_8, E8_8)
+VC_REGISTER_ELEM_ANY(E8_8, E8_8)
 }
